@@ -34,6 +34,7 @@ def run(prop, tier, seed, shard, nshards, budget_s=None):
     out = {"evaluations": 0, "keys": [], "samples": [], "failures": [], "errors": [], "notes": [],
            "truncated": False, "hashseed": os.environ.get("PYTHONHASHSEED", "random")}
     keys = set()
+    early = []
 
     def all_cases():
         # the specific inputs of recorded findings are always explored (both tiers), so that a finding is observed and
@@ -56,12 +57,25 @@ def run(prop, tier, seed, shard, nshards, budget_s=None):
             break
         try:
             r = mod.run_case(case)
-        except Exception:  # engine problem, never a violation
-            out["errors"].append({"case": case, "trace": traceback.format_exc()[-1500:]})
-            if len(out["errors"]) > 5:
-                break
-            continue
+        except (KeyError, IndexError, AttributeError, TypeError, ValueError, ArithmeticError, RecursionError) as ex:
+            # the harness could not even interpret what the library returned (a missing key in a returned map, a cyclic
+            # result, ...): on the unchanged tree this never happens, so it is reported as a failure of the case, with
+            # the trace; environment problems (OSError, ImportError, MemoryError, ...) stay engine errors below
+            import networkx as _nx
+            r = {"nontrivial": True, "failures": [{"kind": f"result-not-interpretable:{type(ex).__name__}",
+                                                   "msg": traceback.format_exc()[-700:]}]}
+        except Exception as ex:  # engine problem, never a violation
+            import networkx as _nx
+            if isinstance(ex, _nx.NetworkXException):
+                r = {"nontrivial": True, "failures": [{"kind": f"result-not-interpretable:{type(ex).__name__}", "msg": traceback.format_exc()[-700:]}]}
+            else:
+                out["errors"].append({"case": case, "trace": traceback.format_exc()[-1500:]})
+                if len(out["errors"]) > 5:
+                    break
+                continue
         out["evaluations"] += 1
+        if len(early) < 25:
+            early.append((case, sorted(f["kind"] for f in r.get("failures", []) if not foreign(prop, f))))
         if r.get("nontrivial", True):
             keys.add(case_key(case))
         if len(out["samples"]) < 2:
@@ -77,6 +91,19 @@ def run(prop, tier, seed, shard, nshards, budget_s=None):
                 f["case"] = case
                 f["hashseed"] = out["hashseed"]
                 out["failures"].append(f)
+    # calls must not depend on what the same process did before: the first cases of the shard are run once more at the
+    # end (after every other case has run) and must give the verdict they gave when the process was fresh
+    if not out["truncated"]:
+        for case, kinds0 in early:
+            try:
+                r = mod.run_case(case)
+            except Exception:  # noqa
+                continue
+            kinds1 = sorted(f["kind"] for f in r.get("failures", []) if not foreign(prop, f))
+            if kinds1 != kinds0 and len(out["failures"]) < 40:
+                out["failures"].append({"kind": "verdict-depends-on-earlier-calls", "case": case, "hashseed": out["hashseed"],
+                                        "msg": f"fresh process: {kinds0 or 'no failure'}; after the other cases of this run: {kinds1 or 'no failure'}"})
+                break
     out["keys"] = sorted(keys)
     out["wall_s"] = time.time() - t0
     return out
